@@ -16,10 +16,11 @@ type Entry struct {
 
 // WireEv is one untagged response the specification expects.
 type WireEv struct {
-	T   string          `json:"t"`
-	N   int             `json:"n"`
-	UID int             `json:"uid"`
-	F   json.RawMessage `json:"f"`
+	T    string          `json:"t"`
+	N    int             `json:"n"`
+	UID  int             `json:"uid"`
+	F    json.RawMessage `json:"f"`
+	Nums []int           `json:"nums"`
 }
 
 // Step is one StepRecord of GluonCore.
